@@ -554,6 +554,19 @@ def tlc_replays(module, cfg_text, name, simulate=None, depth=None, sd=None, work
     return [json.loads(p[0]) for p in prints_tagged(r, "REPLAY")], r
 
 
+def reproduces(bindir, driver, sc, wd, reset_ev, end_ev, trace_module, clause, times=2, tag="_again"):
+    """A clause that compares wall-clock times is reported only if the scenario, run again alone `times` times, shows
+    it every time (a busy machine stretches a single run; a defect that makes the clause true is there every time)."""
+    again = 0
+    for k in range(times):
+        one = dict(sc)
+        one["id"] = 1
+        t2 = drive(bindir, driver, [one], wd, reset_ev, end_ev, timeout=600, tag="%s%d" % (tag, k))
+        i2 = validate_full(trace_module, t2)
+        again += 1 if any(y[1] == clause for y in i2["viols"]) else 0
+    return again == times
+
+
 def mc_runs(module, insts, tier, cov, timeout=1800):
     """insts: list of (cfg, expected_violation or None). Accumulates states/transitions."""
     w = 8 if tier == "thorough" else 4
